@@ -1708,3 +1708,14 @@ package tree
 //@   return [one_label_per_tip_between_the_fixed_parts] ghost(ncalls_WriteString) == old(ghost(ncalls_WriteString)) + 13 + len(tips)
 //@   loop 1
 //@     invariant [labels_so_far] ghost(ncalls_WriteString) == old(ghost(ncalls_WriteString)) + 6 + rangeindex + 1 && ghost(ncalls_Itoa) == old(ghost(ncalls_Itoa)) + 1 && ghost(ncalls_Newick) == old(ghost(ncalls_Newick)) + 1
+
+// RotateInternalNodes (properties C05, C20): every node of the tree, without exception, has its neighbours rotated once
+//@ func (*tree.Tree).RotateInternalNodes
+//@   flag treeop
+//@   flag noframe
+//@   flag countcalls
+//@   requires t != nil
+//@   call (*tree.Tree).Nodes [the_nodes_of_this_tree] a0 == t
+//@   call (*tree.Node).RotateNeighbors [the_node_of_this_iteration] a0 == n
+//@   loop 1
+//@     step [every_node_is_rotated_exactly_once] ghost(ncalls_RotateNeighbors) == atHead(ghost(ncalls_RotateNeighbors)) + 1
